@@ -919,8 +919,20 @@ fn main() {
         spawn_worker();
     }
     // monitor
+    let mut timeouts = 0usize;
     loop {
         if done.load(Ordering::SeqCst) >= n {
+            break;
+        }
+        if timeouts >= 40 {
+            // so many cases ran into the time limit that the abandoned workers starve everything else: give up on
+            // the rest of the batch (reported as SKIPPED, which no clause judges) instead of running for hours
+            let mut res = results.lock().unwrap();
+            for r in res.iter_mut() {
+                if r.is_none() {
+                    *r = Some("SKIPPED".to_string());
+                }
+            }
             break;
         }
         std::thread::sleep(Duration::from_millis(5));
@@ -940,6 +952,7 @@ fn main() {
             let mut res = results.lock().unwrap();
             if res[i].is_none() {
                 res[i] = Some("TIMEOUT".to_string());
+                timeouts += 1;
                 done.fetch_add(1, Ordering::SeqCst);
                 drop(res);
                 spawn_worker();
